@@ -156,6 +156,52 @@ class NativeSym(object):
     def has_digit_run(self, s, k):
         return any(all("0" <= ch <= "9" for ch in s[i:i + k]) for i in range(len(s) - k + 1))
 
+    # ---- cost accounting (C19): traced lines + Python calls + C calls made from productmd frames
+    def _trace_on(self):
+        import sys, os
+        if getattr(self, "_tracing", False):
+            return
+        self._tracing = True
+        self._cost = 0
+        self._limit = None
+        root = os.path.join(os.environ.get("PSX_REPO", "/repo"), "productmd") + os.sep
+        me = self
+
+        def hit():
+            me._cost += 1
+            if me._limit is not None and me._cost > me._limit:
+                lim, me._limit = me._limit, None
+                from psx.values import CostLimitExceeded
+                raise CostLimitExceeded("more than %d steps" % lim)
+
+        def local(frame, event, arg):
+            if event == "line":
+                hit()
+            return local
+
+        def tracer(frame, event, arg):
+            if event == "call" and frame.f_code.co_filename.startswith(root):
+                hit()
+                return local
+            return None
+
+        def profiler(frame, event, arg):
+            if event == "c_call" and frame.f_code.co_filename.startswith(root):
+                hit()
+        sys.settrace(tracer)
+        sys.setprofile(profiler)
+
+    def note_max(self, key, value):
+        pass
+
+    def steps(self):
+        self._trace_on()
+        return self._cost
+
+    def step_limit(self, extra):
+        self._trace_on()
+        self._limit = None if extra is None else self._cost + extra
+
     def symbolic_fs(self, entries, root_name="root"):
         """materialise the model's layout as a real directory tree"""
         import os
@@ -230,6 +276,10 @@ def run_native(fn, inputs, params):
     except Exception as e:
         import traceback
         res["exception"] = {"type": type(e).__name__, "message": str(e)[:500], "traceback": traceback.format_exc()[-2000:]}
+    finally:
+        if getattr(sym, "_tracing", False):
+            sys.settrace(None)
+            sys.setprofile(None)
     import shutil
     for d in getattr(sym, "_scratch", []):
         shutil.rmtree(d, True)
